@@ -847,6 +847,20 @@ type awsChunkReadCloser struct {
 	skipChunkValidation            bool
 	trailerChecksumName            string
 	trailerHasher                  hash.Hash
+	// finished is set once the final zero-length chunk (and its trailer, if
+	// any) has been read and validated.
+	finished bool
+}
+
+// prematureEOF turns an end of input that occurs before the final zero-length
+// chunk into io.ErrUnexpectedEOF. The chunk signature chain only proves a
+// prefix of the payload, so a stream that simply stops must never look like a
+// complete upload to the consumer.
+func prematureEOF(err error) error {
+	if err == io.EOF {
+		return io.ErrUnexpectedEOF
+	}
+	return err
 }
 
 func newAwsChunkReadCloser(ctx context.Context, inner io.ReadCloser, timestamp string, scope string, previousSignature string, verifier signatureVerifier, hasTrailingHeader bool, hasTrailingHeaderWithSignature bool, skipChunkValidation bool, trailerChecksumName string) *awsChunkReadCloser {
@@ -946,10 +960,13 @@ func (r *awsChunkReadCloser) validateTrailerChecksum(checksumHeader string) erro
 }
 
 func (r *awsChunkReadCloser) Read(p []byte) (n int, err error) {
+	if r.finished {
+		return 0, io.EOF
+	}
 	if r.chunkBytesRemaining <= 0 {
 		chunkMetadata, err := r.innerBuf.ReadBytes('\n')
 		if err != nil {
-			return 0, err
+			return 0, prematureEOF(err)
 		}
 		split := bytes.SplitN(bytes.Trim(chunkMetadata, "\r\n"), []byte(";chunk-signature="), 2)
 		hexLen := string(split[0])
@@ -995,9 +1012,10 @@ func (r *awsChunkReadCloser) Read(p []byte) (n int, err error) {
 			} else {
 				_, err := r.innerBuf.Discard(2) // Discard the final \r\n
 				if err != nil {
-					return 0, err
+					return 0, prematureEOF(err)
 				}
 			}
+			r.finished = true
 			return 0, io.EOF // End of the chunked transfer
 		}
 	}
@@ -1006,6 +1024,7 @@ func (r *awsChunkReadCloser) Read(p []byte) (n int, err error) {
 		p = p[:r.chunkBytesRemaining] // Limit the read to the remaining bytes in the chunk
 	}
 	n, err = io.ReadFull(r.innerBuf, p)
+	err = prematureEOF(err)
 	if !r.skipChunkValidation {
 		r.chunkHasher.Write(p[:n])
 	}
@@ -1016,7 +1035,7 @@ func (r *awsChunkReadCloser) Read(p []byte) (n int, err error) {
 	if r.chunkBytesRemaining == 0 {
 		_, err := r.innerBuf.Discard(2) // Discard the trailing \r\n
 		if err != nil {
-			return 0, err
+			return 0, prematureEOF(err)
 		}
 		if !r.skipChunkValidation {
 			err = r.validateSignature()
